@@ -144,7 +144,7 @@ def exec_for(run, s):
         except ContinueSignal:
             pass
         return None
-    summarise(run, dom, body, where='line %d' % s.lineno)
+    summarise(run, dom, body, where='line %d' % s.lineno, target=s.target.id if isinstance(s.target, ast.Name) else None)
 
 
 def _written_delta(st0, st1):
@@ -153,7 +153,7 @@ def _written_delta(st0, st1):
     return locs
 
 
-def summarise(run, dom, body, where='', collect=False, parallel=None):
+def summarise(run, dom, body, where='', collect=False, parallel=None, target=None):
     """Summarise `for ik in range(dom.n): body(dom.elem(ik))`.  With collect=True the values returned by body
     are gathered into a list (comprehensions, Parallel).  Returns the list value or None."""
     st0 = run.st
@@ -353,14 +353,21 @@ def summarise(run, dom, body, where='', collect=False, parallel=None):
     run.frames[-1].env = envi
     try:
         base = len(sti.pc)      # facts assumed from here on are per-iteration facts (generalised over the index)
+        def at_index(env_, idx):
+            # an invariant may mention the loop variable: it holds *before* the iteration with that index
+            if target is None:
+                return env_
+            e2 = dict(env_)
+            e2[target] = dom.elem(idx)
+            return e2
         if inv is not None:
-            inv.init(run, st0, env0)
-            inv.assume_at(run, sti, envi)
+            inv.init(run, st0, at_index(env0, z3.IntVal(0)))
+            inv.assume_at(run, sti, at_index(envi, ik))
         ends = run.explore(sti, lambda: body(dom.elem(ik)))
         if inv is not None:
             for kind_, payload_, st1_, pctx_, env1_ in ends:
                 if kind_ == 'ok':
-                    inv.preserve(run, st1_, env1_)
+                    inv.preserve(run, st1_, at_index(env1_, ik + 1))
     finally:
         run.frames[-1].env = saved_env
     log_end = len(smt.FRESH_LOG)
@@ -581,7 +588,7 @@ def summarise(run, dom, body, where='', collect=False, parallel=None):
     st0_heap = dict(st0.heap)
     build(run.st, n, None)        # continue in the pre-loop state object (it is ours)
     if inv is not None:
-        inv.assume_at(run, run.st, run.frames[-1].env)
+        inv.assume_at(run, run.st, at_index(run.frames[-1].env, n))
     # a raise in iteration k: the function is left from the state after k complete iterations plus the partial one
     for e, g in zip(ends, guards):
         if e[0] == 'raise':
